@@ -339,25 +339,28 @@ def utfSweep (mode : String) (lo hi : Nat) : UInt64 := Id.run do
       acc := utfMix acc (dec l).length
   return acc
 
-partial def loop (h : IO.FS.Stream) (out : IO.FS.Stream) : IO Unit := do
+/-- `gsample <n>`: from here on the source-level model G (fourth column) is evaluated for every `n`-th op only (thorough-scale runs) -/
+partial def loop (h : IO.FS.Stream) (out : IO.FS.Stream) (every : Nat) (count : Nat) : IO Unit := do
   let line ← h.getLine
   if line.isEmpty then
     out.flush
     return ()
   let toks := (line.trimAscii.toString.splitOn " ").filter (· ≠ "")
   match toks with
-  | "flush" :: _ => out.flush
-  | "asm" :: args => out.putStrLn (runAsm args)
-  | "step" :: args => out.putStrLn (runStep false args)
-  | "jump" :: args => out.putStrLn (runStep true args)
-  | "utf8" :: mode :: lo :: hi :: _ => out.putStrLn (toString (utfSweep mode lo.toNat! hi.toNat!).toNat)
+  | "flush" :: _ => out.flush; loop h out every count
+  | "gsample" :: n :: _ => loop h out (max 1 n.toNat!) 0
+  | "asm" :: args => out.putStrLn (runAsm args); loop h out every count
+  | "step" :: args => out.putStrLn (runStep false args); loop h out every count
+  | "jump" :: args => out.putStrLn (runStep true args); loop h out every count
+  | "utf8" :: mode :: lo :: hi :: _ => out.putStrLn (toString (utfSweep mode lo.toNat! hi.toNat!).toNat); loop h out every count
   | fn :: cfg :: args =>
     let (a, s) := run fn (mkCfg cfg) args
-    out.putStrLn (a ++ "\t" ++ s ++ "\t" ++ runM fn (mkCfg cfg) args ++ "\t" ++ runG fn cfg args)
-  | _ => out.putStrLn "bad-op\tbad-op\t-\t-"
-  loop h out
+    let g := if count % every == 0 then runG fn cfg args else "-"
+    out.putStrLn (a ++ "\t" ++ s ++ "\t" ++ runM fn (mkCfg cfg) args ++ "\t" ++ g)
+    loop h out every (count + 1)
+  | _ => out.putStrLn "bad-op\tbad-op\t-\t-"; loop h out every count
 
 def main : IO Unit := do
   let stdin ← IO.getStdin
   let stdout ← IO.getStdout
-  loop stdin stdout
+  loop stdin stdout 1 0
